@@ -39,3 +39,4 @@ SPEC = {'id': 'C14',
                "CompletingRebalance the leader's sync succeeds and makes the group Stable, in Stable every current member's sync of that generation succeeds "
                '(and by C12_one_map_per_generation the group stays Stable while the generation is unchanged). Correspondence + implementation-side oracle '
                "(black-box: every current member's last join reply carries the generation of a NONE reply) on generated histories."}
+SPEC['assumptions'].insert(0, "every coordinator operation holds c.mu from its first read of group state to its last store write (this is what makes the model's step relation atomic per operation, schedules = operation sequences). CHECKED by the harness on the real code: a gating store wrapper intercepts every store call the coordinator makes (Metadata, PutConsumerGroup, FetchConsumerGroup, DeleteConsumerGroup, CommitConsumerOffset) during every operation of every history and tests whether c.mu is free; if it is, the schedule's inner operations are run to completion on the same group while that store call is parked and the failure lock-released-across-store-call:<op>:<storecall> is reported with the schedule as replay (plus whatever the property oracles then observe); where the lock is held the inner operations run after the outer one, which is the order the lock enforces. Windows for every outer kind x inner kind are generated in every quick run.")
